@@ -19,7 +19,14 @@ CASES = [
           "Internal Fiddle error: you must run the make_symbolic_references "
           "passes before CST generation."
       )
-    elif isinstance(value, (list, tuple)):""", """    if isinstance(value, (list, tuple)):""")]),
+    elif type(value) in (list, tuple):  # Not subclasses, e.g. NamedTuples.""", """    if type(value) in (list, tuple):  # Not subclasses, e.g. NamedTuples.""")]),
+    dict(id='c12-container-isinstance-again', prop='C12', file=I, expect='violation',
+         names='TYPE.exact-container-literal',
+         edits=[("    elif type(value) is dict:  # Not subclasses, e.g. defaultdict.",
+                 "    elif isinstance(value, dict):")]),
+    dict(id='c12-benign-container-type-eq', prop='C12', file=I, expect='silent',
+         edits=[("    elif type(value) is dict:  # Not subclasses, e.g. defaultdict.",
+                 "    elif type(value) == dict:")]),
     dict(id='c12-swallow-conversion-error', prop='C12', file=I, expect='violation',
          edits=[("""        print(f"\\n\\nPATH: {daglish.path_str(state.current_path)}")
         raise""", """        print(f"\\n\\nPATH: {daglish.path_str(state.current_path)}")
